@@ -24,6 +24,7 @@ if ! cargo build --offline --release -p checks --bin "$bin" > $H/build.log 2>&1;
 fi
 if [ "$ID" = "C18" ]; then cargo build --offline --release -p c18log >> $H/build.log 2>&1; export VERIF_C18LOG_BIN=$H/target/release/c18log; fi
 if [ "$ID" = "C01" ]; then cargo build --offline --release -p c01cap >> $H/build.log 2>&1; export VERIF_C01CAP_BIN=$H/target/release/c01cap; fi
+if [ "$ID" = "C01" ]; then cargo build --offline --release -p c01cap2 >> $H/build.log 2>&1; export VERIF_C01CAP2_BIN=$H/target/release/c01cap2; fi
 case "$ID" in C05|C06|C07|C08|C09|C11|C12|C13|C14|C16)
   if [ "$TIER" = "thorough" ]; then
     cargo build --offline --profile dbgassert -p checks --bin "$bin" >> $H/build.log 2>&1 && export VERIF_${ID}_DBG_BIN=$H/target/dbgassert/$bin
